@@ -338,6 +338,8 @@ func (g *Gen) binop(x *ssa.BinOp, st *State, r string) {
 		g.safety("divzero", r, "(not (= "+b.T+" 0))", "integer division by zero", x.Pos())
 		if c, ok := constUint(x.Y); ok && c > 0 && !isSigned(rt) {
 			term = fmt.Sprintf("(div %s %d)", a.T, c)
+		} else if !isSigned(rt) {
+			term = "(div " + a.T + " " + b.T + ")"
 		} else {
 			term = wrapTerm("(tdiv "+a.T+" "+b.T+")", rt)
 		}
@@ -345,6 +347,9 @@ func (g *Gen) binop(x *ssa.BinOp, st *State, r string) {
 		g.safety("divzero", r, "(not (= "+b.T+" 0))", "integer modulo by zero", x.Pos())
 		if c, ok := constUint(x.Y); ok && c > 0 && !isSigned(rt) {
 			term = fmt.Sprintf("(mod %s %d)", a.T, c)
+		} else if !isSigned(rt) {
+			// unsigned operands are non-negative: Go's remainder is the mathematical one (b == 0 panics, see above)
+			term = "(mod " + a.T + " " + b.T + ")"
 		} else {
 			term = "(tmod " + a.T + " " + b.T + ")"
 		}
